@@ -680,6 +680,47 @@ Definition sp_drain_f (c : cfg) (st : astate) (nx : N) (a : api) (v : nat) (sb e
       end
   end.
 
+(** a splice (honest replacement values, valid range, result that fits) that is dropped unconsumed, with a fuse:
+    the destructor of the k-th element of the range panics (A: as the drain; the replacement values are destroyed
+    too), or - the range being gone - the f-th call of the replacement iterator's next() panics (B: the values not
+    yet pulled are destroyed, those already moved in are leaked together with the tail), or nothing panics (C) *)
+Definition sp_splice_f (c : cfg) (st : astate) (nx : N) (a : api) (v : nat) (sb eb : bound)
+           (rk : rkind) (n : N) (wrong_at : option N) (claimed : N) (k : N) : option sres :=
+  match rk, wrong_at with
+  | RLazy _, _ | _, Some _ => None
+  | _, None =>
+    if negb (claimed =? n) then None else
+    match get_a v st with
+    | None => None
+    | Some av =>
+      let xs := a_xs av in
+      let ts := next_ids c nx (N.to_nat n) in
+      let nx' := nx + n in
+      match range_of_bounds usize_max (N.of_nat (length xs)) (to_sb sb) (to_sb eb) with
+      | None => None
+      | Some (s, e) =>
+          let s := N.to_nat s in let e := N.to_nat e in
+          let range := firstn (e - s) (skipn s xs) in
+          let new_len := N.of_nat s + n + N.of_nat (length xs - e) in
+          let kept := set_a v (Some (with_xs av (firstn s xs))) st in
+          if (usize_max <? new_len) || (match acap c (a_bk av) with Some cap => cap <? new_len | None => false end)
+          then None
+          else
+            let m := if c_dg c then N.of_nat (e - s) else 0 in
+            let range_drops := if c_dg c then map EDrop range else [] in
+            if c_dg c && (k <? N.of_nat (e - s)) then
+              Some (panic_res PUser (map EDrop (match a with Erased => firstn (S (N.to_nat k)) range | Typed => range end)
+                                     ++ (if c_dg c then map EDrop ts else [])) kept nx')
+            else if k - m <? n then
+              let f := N.to_nat (k - m) in
+              Some (panic_res PUser (range_drops ++ repeat ENext (S f) ++ (if c_dg c then map EDrop (skipn f ts) else [])) kept nx')
+            else
+              Some (ok_res [N.of_nat (e - s)] (range_drops ++ repeat ENext (N.to_nat n))
+                           (set_a v (Some (with_xs av (VecSpec.sp_splice s e ts xs))) st) nx')
+      end
+    end
+  end.
+
 Definition spec_step_f (c : cfg) (st : astate) (nx : N) (fuse : option N) (o : op) : option sres :=
   match fuse with
   | None => spec_step c st nx o
@@ -694,6 +735,7 @@ Definition spec_step_f (c : cfg) (st : astate) (nx : N) (fuse : option N) (o : o
           | None => None
           end
       | ODrain a v sb eb [] FinDrop => sp_drain_f c st nx a v sb eb k
+      | OSplice a v sb eb [] FinDrop rk n wrong_at claimed => sp_splice_f c st nx a v sb eb rk n wrong_at claimed k
       | OPop _ v KDrop => sp_take_drop_f c st nx v TPop 0 k
       | ORemove _ v idx KDrop => sp_take_drop_f c st nx v TRemove idx k
       | OSwapRemove _ v idx KDrop => sp_take_drop_f c st nx v TSwapRemove idx k
